@@ -20,7 +20,7 @@ RULE = ('random nested containers (list/tuple/dict/Dict, depth<=3) of Series and
         'non-trivial = >=2 timeseries with neither equal nor disjoint indices, or an empty intersection, or a NaN that a fill must skip; distinct = canonical hash')
 ASSUMPTIONS = ['fill methods on multi-column frames are claimed for row-complete frames only (each row all-NaN or NaN-free), where row-wise as-of and per-column last-non-NaN coincide',
                'column order of re-columned frames is not compared', 'pass-through leaves are non-container objects', 'containers are lists and dicts (incl. Dict) as the statement says; tuples are not searched for timeseries by df_index and are not generated',
-               'numpy collections are exercised separately from pandas collections']
+               'numpy collections are exercised separately from pandas collections', 'exact int64 columns beyond 2**53 are used only under an inner join without fill (elsewhere pandas itself upcasts when NaN rows appear)']
 T0 = datetime.datetime(2021, 3, 1)
 
 
@@ -47,7 +47,12 @@ def build(t, intraday, registry):
     import pandas as pd
     from pyg_base import Dict
     if isinstance(t, dict) and 'ts' in t:
-        idx = pd.DatetimeIndex([stamp(i, intraday) for i in t['ts']])
+        key = tuple(t['ts'])
+        if t.get('share_index') and key in registry.setdefault('idx', {}):
+            idx = registry['idx'][key]      # the very same index object as an earlier series (as in c = a * 2)
+        else:
+            idx = pd.DatetimeIndex([stamp(i, intraday) for i in t['ts']])
+            registry.setdefault('idx', {})[key] = idx
         cols = t['cols']
         if len(cols) == 1 and t.get('series', True):
             obj = pd.Series([float('nan') if v is None else float(v) for v in cols[0]], index=idx, dtype=float)
@@ -55,6 +60,8 @@ def build(t, intraday, registry):
             names = t.get('names') or ['c%d' % j for j in range(len(cols))]
             mat = np.array([[float('nan') if v is None else float(v) for v in c] for c in cols], dtype=float).T.reshape(len(idx), len(cols))
             obj = pd.DataFrame(mat, index=idx, columns=names)
+            for j in t.get('intcols', []):
+                obj[names[j]] = np.array([int(v) for v in cols[j]], dtype='int64')     # exact integers beyond 2**53
         registry['ts'].append((obj, t))
         return obj
     if isinstance(t, dict) and 'leaf' in t:
@@ -144,6 +151,8 @@ def check_aligned(ctx, got, spec, index, method, intraday, what, mon_val='values
         ctx.fail('joint_index', '%s: index %s, prescribed common index %s' % (what, _short_idx(gi), _short_idx(exp_idx)))
         return False
     gcols = [got.values.tolist()] if is_series else [got.iloc[:, j].values.tolist() for j in range(got.shape[1])]
+    if spec.get('intcols'):
+        cols = [[float('nan') if v is None else v for v in c] for c in spec['cols']]
     if len(gcols) != len(cols):
         ctx.fail(mon_val, '%s: %d columns came back, had %d' % (what, len(gcols), len(cols)))
         return False
@@ -383,7 +392,7 @@ class IdGen(object):
         return float(self.n)
 
 
-def gen_ts(rng, ids, multi_ok, rowcomplete, grid=12):
+def gen_ts(rng, ids, multi_ok, rowcomplete, grid=12, intcols_ok=False):
     mode = rng.random()
     if mode < 0.08:
         ts = []
@@ -401,8 +410,14 @@ def gen_ts(rng, ids, multi_ok, rowcomplete, grid=12):
                 for c in cols:
                     c[i] = None
     spec = {'ts': ts, 'cols': cols}
+    if rng.random() < 0.5:
+        spec['share_index'] = True
     if k > 1:
         spec['names'] = rng.sample(['p', 'q', 'r', 's'], k)
+        if rng.random() < 0.25 and ts and intcols_ok:
+            j = rng.randrange(k)
+            cols[j] = [2 ** 53 + 1 + 2 * int(ids()) for _ in ts]
+            spec['intcols'] = [j]
     elif rng.random() < 0.2 and multi_ok:
         spec['series'] = False
         spec['names'] = [rng.choice(['p', 'q'])]
@@ -413,13 +428,13 @@ def gen_leaf(rng):
     return {'leaf': rng.choice([1, 2.5, 'text', None, '$opaque', True, ''])}
 
 
-def gen_container(rng, ids, depth, multi_ok, rowcomplete):
+def gen_container(rng, ids, depth, multi_ok, rowcomplete, intcols_ok=False):
     r = rng.random()
     if depth >= 3 or (depth > 0 and r < 0.55):
-        return gen_ts(rng, ids, multi_ok, rowcomplete) if rng.random() < 0.7 else gen_leaf(rng)
+        return gen_ts(rng, ids, multi_ok, rowcomplete, intcols_ok=intcols_ok) if rng.random() < 0.7 else gen_leaf(rng)
     n = rng.randint(1, 4) if depth == 0 else rng.randint(0, 3)
     k = rng.choice(['list', 'list', 'dict', 'Dict'])
-    kids = [gen_container(rng, ids, depth + 1, multi_ok, rowcomplete) for _ in range(n)]
+    kids = [gen_container(rng, ids, depth + 1, multi_ok, rowcomplete, intcols_ok) for _ in range(n)]
     if k in ('list', 'tuple'):
         return {k: kids}
     return {k: {('k%d' % i): c for i, c in enumerate(kids)}}
@@ -461,7 +476,8 @@ def gen_case(rng):
                 'form': rng.choice(['ctor', 'chain_join_first', 'chain_fill_first', 'call_kw'])}
     multi = rng.random() < 0.35
     api = rng.choice(['df_sync', 'df_reindex']) if not multi else 'df_sync'
-    x = gen_container(rng, ids, 0, multi, method is not None)
+    # exact int64 columns beyond 2**53 only where alignment introduces no NaN (inner join, no fill): pandas itself upcasts otherwise
+    x = gen_container(rng, ids, 0, multi, method is not None, intcols_ok=(policy == 'ij' and method is None))
     case = {'kind': 'sync', 'x': x, 'policy': policy, 'method': method, 'intraday': intraday, 'api': api, 'multi': multi, 'long_names': rng.random() < 0.3}
     if multi:
         case['columns'] = rng.choice(['ij', 'oj'])
